@@ -176,7 +176,11 @@ theorem increase_fee_exact (s s' : State) (id : Nat) (who : Addr) (t : Token) (a
       add ≤ getBal s.bal (who, t) ∧
       (∀ k, getBal s'.bal k = if k = (who, t) then getBal s.bal k - add else getBal s.bal k) ∧
       s'.settled = s.settled ∧ s'.batches = s.batches := by
+  have hpayer : ∀ tx : Tx, incFeePayerOf tx who = who := by
+    have : incFeePayer = .msgSender := by decide
+    intro tx; simp [incFeePayerOf, this]
   unfold doIncFee at h
+  simp only [hpayer] at h
   split at h
   · cases h
   · split at h
